@@ -344,13 +344,14 @@ class LoaderGroup(Generic[_K, _L]):
             all_tasks.append(tasks)
             input_shape = model.input_shape
             has_rotation = model.has_rotation
+            n_templates = len(_tmps)
 
         if input_shape is None:
             raise RuntimeError("LoaderGroup has no loader.")
 
         all_results = compute(all_tasks)
         if has_rotation:
-            remainder = len(templates)
+            remainder = n_templates
         else:
             remainder = -1
         out: list[tuple[_K, _L]] = []
